@@ -85,7 +85,7 @@ class LockFlow:
         self.try_guard_recs = set(try_guard_recs)
         self.alias = alias or {}
         self.unknown = []        # unrecognised idioms (reported as analysis-broken by callers)
-        self.release_events = set()   # (b, i) of events that release some lock
+        self.release_events = {}      # (b, i) -> lock id released there ('?' = unknown callee handed the guard)
         self.extra_release = extra_release
         st = LockState(frozenset(entry_held))
         for p in fn.params:
@@ -100,13 +100,13 @@ class LockFlow:
         return self.alias.get(p, p)
 
     def _release(self, st, lock, pos):
-        self.release_events.add(pos)
+        self.release_events[pos] = lock
         return st.drop(lock)
 
     def _transfer(self, st, ev, pos):
         k = ev.get("k")
         if self.extra_release and self.extra_release(ev):
-            self.release_events.add(pos)
+            self.release_events[pos] = "?"
         if k == "ctor":
             gk = guard_kind(ev.get("rec"))
             var = ev.get("var")
@@ -272,10 +272,11 @@ class LockFlow:
             for i, a in enumerate(args):
                 a0 = strip(a)
                 if a0.get("k") == "var" and st.g(P(a0)) is not None and not is_moved(a):
+                    g_ = st.g(P(a0))
                     if name in RELEASING:
-                        self.release_events.add(pos)
+                        self.release_events[pos] = g_[0] or "?"
                     elif name not in NON_RELEASING:
-                        self.release_events.add(pos)   # conservative for check-then-act
+                        self.release_events[pos] = g_[0] or "?"   # conservative for check-then-act
             return st
         return st
 
